@@ -95,8 +95,11 @@ def operand(rng, depth=0):
         return {'number': float(text)}
     if c < 0.45:
         return ir.call('numberParseInt', ir.s(rng.choice(['9' * 20, '9' * 100, BIG, '-' + BIG, '12', '0'])))
-    if c < 0.50:
+    if c < 0.48:
         return ir.binop('**', ir.call('numberParseInt', ir.s(BIG)), ir.num(rng.choice([2, 11, 12])))
+    if c < 0.50:
+        # an integer beyond CPython's int->str digit limit; NaN and the infinities built in-language or host-supplied
+        return rng.choice([huge_int, nan_expr, inf_expr, lambda: ir.var(rng.choice(['gNaN', 'gInf', 'gNegInf', 'gHuge']))])()
     if c < 0.58:
         return ir.s(rng.choice(STRINGS))
     if c < 0.64:
@@ -123,6 +126,19 @@ def operand(rng, depth=0):
 OPS = ['+', '-', '*', '/', '%', '**', '==', '!=', '<', '<=', '>', '>=', '&&', '||']
 
 
+def huge_int():
+    """An int of ~4800 decimal digits (str() of it raises ValueError in CPython >= 3.11)."""
+    return ir.call('numberParseInt', ir.s('f' * 4000), ir.num(16))
+
+
+def inf_expr():
+    return ir.binop('*', ir.num(1e308), ir.num(10))
+
+
+def nan_expr():
+    return ir.binop('-', inf_expr(), inf_expr())
+
+
 def classic(rng):
     """The operand combinations the property's quantifier names, hit deliberately and often."""
     big = ir.call('numberParseInt', ir.s(BIG))
@@ -145,6 +161,15 @@ def classic(rng):
         lambda: ir.binop('+', ir.s('n='), ir.binop('**', big, ir.num(12))),
         lambda: ir.binop('+', ir.binop('**', big, ir.num(11)), ir.s('')),
         lambda: ir.binop('-', dt, dt), lambda: ir.binop('/', ir.num(1e-320), ir.num(1e308)),
+        # operands whose conversion raises ValueError inside the operator: str() of a >4300-digit int, int() of NaN
+        lambda: ir.binop('+', ir.s(rng.choice(['n=', ''])), rng.choice([huge_int(), ir.var('gHuge'), ir.binop('*', huge_int(), huge_int())])),
+        lambda: ir.binop('+', rng.choice([huge_int(), ir.var('gHuge')]), ir.s('x')),
+        lambda: ir.binop('+', ir.s('v='), rng.choice([ir.call('arrayNew', ir.num(1), huge_int()),
+                                                      ir.call('objectNew', ir.s('k'), huge_int())])),
+        lambda: ir.binop(rng.choice(['+', '-']), rng.choice([dt, ir.var('gAware'), ir.var('gNaive')]),
+                         rng.choice([nan_expr(), inf_expr(), ir.var('gNaN'), ir.var('gInf'), ir.var('gNegInf')])),
+        lambda: ir.binop('+', rng.choice([nan_expr(), ir.var('gNaN'), ir.var('gInf')]), dt),
+        lambda: ir.binop(rng.choice([o for o in OPS if o != '**']), rng.choice([nan_expr(), ir.var('gNaN'), ir.var('gHuge'), huge_int()]), anyv()),
         lambda: ir.binop('**', big, ir.num(rng.choice([0.5, 1.5]))), lambda: ir.binop('**', ir.num(1.5), big),
         lambda: ir.binop('%', ir.num(rng.choice([5, 5.5])), rng.choice([neg(0), ir.num(0)])),
         lambda: ir.unop('-', big), lambda: ir.binop('*', big, big),
@@ -208,8 +233,11 @@ def lib_call(rng, names):
             args.append(ir.call('regexNew', ir.s('a')))
         elif c < 0.96:
             args.append(ir.call('datetimeNew', ir.num(2020), ir.num(2), ir.num(29)))
-        else:
+        elif name not in NO_HUGE:
             args.append(ir.var(rng.choice(['r0', 'r1', 'r2'])))
+        else:
+            # an earlier result may be a huge number: arrayNewSize(1e20) and the like loop for hours (ASSUMPTIONS)
+            args.append(ir.num(rng.choice(SAFE_NUMS)))
     return ir.call(name, *args)
 
 
@@ -475,7 +503,9 @@ def datetime_globals():
     import datetime
     return {'gAware': datetime.datetime(2024, 3, 10, 1, 30, tzinfo=datetime.timezone(datetime.timedelta(hours=5, minutes=45))),
             'gAwareUtc': datetime.datetime(2024, 3, 10, 1, 30, tzinfo=datetime.timezone.utc),
-            'gNaive': datetime.datetime(2024, 3, 10, 1, 30), 'gDate': datetime.date(2024, 3, 10)}
+            'gNaive': datetime.datetime(2024, 3, 10, 1, 30), 'gDate': datetime.date(2024, 3, 10),
+            # host-supplied numbers at the edges: NaN, the infinities, an int beyond the int->str digit limit
+            'gNaN': float('nan'), 'gInf': float('inf'), 'gNegInf': float('-inf'), 'gHuge': 16 ** 4000 - 1}
 
 
 def run_adversarial(plan, stats):
